@@ -113,7 +113,7 @@ theorem parse_vbri (s : VbriStream) (ok : s.OK) : parse s.build = .ok s.expected
     rw [hvb]
   have htf := takeFrames_first s.build o _ _ hm hsk
   have hsl := syncLoop_first s.build o rest _ htf hsk
-  unfold parse
+  unfold parse parseFrom
   simp only [hscan, hsl, hvb]
   simp only [VbriStream.expected, headerInfo, infoOf, ho, Option.getD]
 
